@@ -427,6 +427,9 @@ def check_history(start: S.AbsConn, steps):
             if this_backward and b == new:
                 fail(SIG_D6, "backward Reset-mode SequenceReset: the receiver re-requests already delivered numbers",
                      None, (b, e16))
+        if rrs and ev[0] == "recv" and not (seq is not None and seq > exp) and not (is_reset and not gapfill):
+            fail("C04-resend-without-gap", "ResendRequest written for a frame that is not numbered above the expectation",
+                 0, len(rrs))
         if gap is not None and rrs:
             fail("C04-second-resend", "another ResendRequest while the gap is still open", 0, len(rrs))
         if len(rrs) > 1:
@@ -434,6 +437,9 @@ def check_history(start: S.AbsConn, steps):
         # a frame of the property's alphabet above the expectation must trigger one, unless a gap is already open
         integrity_ok = (frame is not None and _get(fs, 8) == "FIX.4.4" and _get(fs, 49) == pre.target
                         and _get(fs, 56) == pre.sender and seq is not None)
+        # non-vacuity of "only the expected number": the expected application frame IS delivered (nothing is skipped)
+        if integrity_ok and seq == exp and pre.state >= 8 and mt not in ("0", "1", "2", "4", "5", "A") and not ds:
+            fail("C04-expected-not-delivered", "application frame carrying the expected number was not delivered", 1, 0)
         above = integrity_ok and seq > exp and mt not in ("A", "5") and not (is_reset and not gapfill)
         if above and pre.state >= 8 and pre.state != 12 and pre.sock:
             if len(rrs) != 1:
@@ -462,6 +468,31 @@ def check_history(start: S.AbsConn, steps):
         backward_seen = backward_seen or this_backward
         pre = post
     return fails
+
+
+def check_set_next_num_in():
+    """clause 'the expected number changes only by one per accepted message', on FIXSession.set_next_num_in alone:
+    a non-SequenceReset message moves the counter iff it carries exactly the expected number"""
+    from asyncfix import FIXMessage
+    from asyncfix.session import FIXSession
+
+    fails, n = [], 0
+    for ni in (1, 5, 2**32 + 3):
+        for off in (-2, -1, 0, 1, 2, 1000):
+            for mt in ("D", "0", "8", "A", "5"):
+                sess = FIXSession("k", "T", "S")
+                sess.next_num_in = ni
+                msg = FIXMessage(mt)
+                msg.set(34, str(ni + off))
+                r = sess.set_next_num_in(msg)
+                n += 1
+                want = (ni + off, ni + 1) if off == 0 else (-1, ni)
+                if (r, sess.next_num_in) != want:
+                    fails.append({"signature": "C04-set-next-num-in-accepts-unexpected",
+                                  "what": "FIXSession.set_next_num_in() moved / kept the counter against the rule",
+                                  "input": {"unit": "set_next_num_in", "next_num_in": ni, "msg_type": mt, "MsgSeqNum": ni + off},
+                                  "expected": want, "observed": (r, sess.next_num_in)})
+    return n, fails
 
 
 D6_WITNESS = {"start": "ACTIVE/1", "letters_explicit": [
@@ -523,6 +554,9 @@ def oracle(ctx, disagreements, broken):
         for name, e in corpus_runs():
             st = S.parse_conn_tokens(e["start"])
             run_and_check(st, run_letters(impl, st, e["letters"]))
+        nunit, ufails = check_set_next_num_in()
+        stats["set_next_num_in_calls"] = nunit
+        failures.extend(ufails[:3])
         # 3 histories on which model and implementation disagreed
         if broken:
             for d in disagreements[:200]:
@@ -570,7 +604,7 @@ def oracle(ctx, disagreements, broken):
     stats["failures"] = len(failures)
     ctx.oracle_stats = stats
     # smallest witness first per signature
-    failures.sort(key=lambda f: (f["signature"], len(f["input"]["events"])))
+    failures.sort(key=lambda f: (f["signature"], len(f["input"].get("events", []))))
     return failures
 
 
@@ -591,6 +625,10 @@ def replay(ctx, rp):
     impl = S.Impl()
     try:
         h = rp["input"]
+        if h.get("unit") == "set_next_num_in":
+            _, uf = check_set_next_num_in()
+            print("replay: set_next_num_in ->", [f["input"] for f in uf][:3])
+            return bool(uf)
         st = S.parse_conn_tokens(h["start"])
         impl.load(st)
         a, steps = st, []
